@@ -9,7 +9,7 @@
  * Value encoding `enc` (ASCII, no spaces):  z | t | f | n<dec>; | s<hex>; | a<count>:<v>* | d<count>:(k<hex>;<v>)*
  *
  * Lines:
- *   T <Type> cfg=<fields with FAConfig> other=<other fields>
+ *   T <Type> cfg=<fields with FAConfig> other=<other fields> plural=<lower-case plural name: the type's directory below conf.d>
  *   C <n> | <state>
  *   create <Type> <nameHex|-> <ioe> <templatesEnc> <attrsEnc> | now= parts= cfg= ok= parents= file= attrs= <state>
  *   delete <Type> <nameHex|-> <cascade> | found= ok= <state>
@@ -27,7 +27,10 @@
  *   `delete <Type> <nameHex> 1` for the object just created; if the next input line is exactly that line it is skipped.
  *   create lines carry children=<DependencyGraph::GetChildren> directly after parents=.
  *   ok: 1 true, 0 false, x exception escaped, - no call, c call not made because it is known to crash /repo (see WouldCrash)
- *   <state> = objs=<Type:nameHex:api:active:hash,...> items=<Type:nameHex,...> files=<hex,...> glob=<hash>
+ *   <state> = objs=<Type:nameHex:api:active:hash:reg,...> items=<Type:nameHex,...> files=<hex,...> glob=<hash>
+ *            (reg = 1: ConfigType::GetObject(name) returns this very object)
+ *   An operation line ending in `httpn` instead of `http` (creates with an empty attribute dictionary only): the request body
+ *   has no "attrs" member at all.
  *
  * The virtual clock of a create is 1700000000 + 64*<case number> + <1-based index of the operation in its case>, so a
  * replay of any subset of whole cases reproduces the lines of those cases byte for byte.
@@ -276,7 +279,7 @@ static std::string Join(const std::vector<std::string>& v)
 static const char *l_TypeNames[] = {
 	"Host", "Service", "CheckCommand", "User", "UserGroup", "HostGroup", "ServiceGroup", "TimePeriod",
 	"Notification", "Dependency", "Comment", "Downtime", "Zone", "Endpoint", "ApiUser", "NotificationCommand",
-	"EventCommand"
+	"EventCommand", "FileLogger"
 };
 static std::vector<Type::Ptr> l_Types;             /* types under test, sorted by name */
 static std::string l_DataDir, l_StageDir;          /* l_StageDir: <DataDir>/api/packages/_api/<stage> */
@@ -360,8 +363,11 @@ static std::string State()
 		std::vector<std::pair<std::string, std::string>> es;
 		for (const ConfigObject::Ptr& obj : ctype->GetObjects()) {
 			std::string name = obj->GetName().GetData();
+			/* reg: looking the name up (ConfigType::GetObject, what every API call does) finds THIS object */
+			bool reg = false;
+			try { reg = ctype->GetObject(obj->GetName()) == obj; } catch (...) { }
 			std::string e = tn + ":" + Hex(name) + ":" + (obj->GetPackage() == "_api" ? "1" : "0") + ":" +
-				(obj->IsActive() ? "1" : "0") + ":" + ObjHash(obj);
+				(obj->IsActive() ? "1" : "0") + ":" + ObjHash(obj) + ":" + (reg ? "1" : "0");
 			es.emplace_back(name, e);
 		}
 		std::sort(es.begin(), es.end());
@@ -922,7 +928,7 @@ static bool WouldCrash(const Type::Ptr& type, const String& fullName, const Dict
 }
 
 static void DoCreate(const Type::Ptr& type, const std::string& name, bool ioe, const Array::Ptr& templates,
-	const Dictionary::Ptr& attrs, bool viaHttp)
+	const Dictionary::Ptr& attrs, bool viaHttp, bool noAttrsMember = false)
 {
 	l_OpIdx++;
 	l_NCreate++;
@@ -933,7 +939,7 @@ static void DoCreate(const Type::Ptr& type, const std::string& name, bool ioe, c
 
 	std::string tn = type->GetName().GetData();
 	String fullName(name);
-	std::string head = "create " + tn + " " + NameTok(name) + " " + (ioe ? "1" : "0") + " " + EncS(templates) + " " + EncS(attrs) + (viaHttp ? " http" : "");
+	std::string head = "create " + tn + " " + NameTok(name) + " " + (ioe ? "1" : "0") + " " + EncS(templates) + " " + EncS(attrs) + (viaHttp ? (noAttrsMember ? " httpn" : " http") : "");
 	if (l_Flush) {
 		fprintf(stderr, "%s\n", head.c_str());
 		fflush(stderr);
@@ -979,13 +985,18 @@ static void DoCreate(const Type::Ptr& type, const std::string& name, bool ioe, c
 	if (haveCfg && getenv("VERIF_C17_GUARD") && WouldCrash(type, fullName, attrs)) { /* off by default: workers are crash-isolated, the death is reported as an X line */
 		ok = "c";
 	} else if (viaHttp) {
-		std::string body = "{\"attrs\":";
-		JsonVal(attrs, body);
-		if (templates && templates->GetLength() > 0) {
-			body += ",\"templates\":";
-			JsonVal(templates, body);
+		std::string body = "{";
+		if (!noAttrsMember) {
+			body += "\"attrs\":";
+			JsonVal(attrs, body);
+			body += ",";
 		}
-		body += std::string(",\"ignore_on_error\":") + (ioe ? "true" : "false") + "}";
+		if (templates && templates->GetLength() > 0) {
+			body += "\"templates\":";
+			JsonVal(templates, body);
+			body += ",";
+		}
+		body += std::string("\"ignore_on_error\":") + (ioe ? "true" : "false") + "}";
 		int status = HttpCall(boost::beast::http::verb::put, "/v1/objects/" + PluralOf(type) + "/" + UrlEnc(name), body);
 		if (haveCfg)
 			ok = status == 200 ? "1" : status == 500 ? "0" : "x";
@@ -1199,7 +1210,8 @@ static void ExecLine(std::string line)
 		if (!endp || *endp || n < 0 || n > 100000000000LL) { fprintf(stderr, "bad C line\n"); return; }
 		BeginCase(n);
 	} else if (tok[0] == "create") {
-		bool viaHttp = tok.size() == 7 && tok[6] == "http";
+		bool noAttrsMember = tok.size() == 7 && tok[6] == "httpn";
+		bool viaHttp = tok.size() == 7 && (tok[6] == "http" || noAttrsMember);
 		if (tok.size() != 6 && !viaHttp) { fprintf(stderr, "bad create line (%zu tokens)\n", tok.size()); return; }
 		Type::Ptr type = TypeOf(tok[1]);
 		std::string name;
@@ -1214,7 +1226,11 @@ static void ExecLine(std::string line)
 			fprintf(stderr, "create line cannot go through http\n");
 			return;
 		}
-		DoCreate(type, name, tok[3] == "1", templates, av, viaHttp);
+		if (noAttrsMember && Dictionary::Ptr(av)->GetLength() > 0) {
+			fprintf(stderr, "httpn create line with attributes\n");
+			return;
+		}
+		DoCreate(type, name, tok[3] == "1", templates, av, viaHttp, noAttrsMember);
 	} else if (tok[0] == "delete") {
 		bool viaHttp = tok.size() == 5 && tok[4] == "http";
 		if (tok.size() != 4 && !viaHttp) { fprintf(stderr, "bad delete line\n"); return; }
@@ -1370,7 +1386,7 @@ static void Account(const std::string& op, const std::string& out, int idx)
 		else if (ok == "0") st[1]++;
 		else if (ok == "x") st[2]++;
 		else st[3]++;
-		if (op.find(" http") != std::string::npos && op.rfind(" http") == op.size() - 5) l_PHttp++;
+		if (op.find(" http") != std::string::npos && (op.rfind(" http") == op.size() - 5 || op.rfind(" httpn") == op.size() - 6)) l_PHttp++;
 		if (tn == "Host" && (op.find("k6331375f6170706c79;") != std::string::npos || op.find("k6331375f6e6f74696679;") != std::string::npos)) {
 			if (ok == "1" && attrs != "-") l_PApplyOk++; else l_PApplyFail++;
 		}
@@ -1460,12 +1476,13 @@ static std::string OpPart(std::string line)
 
 /* wantHttp is honoured only if the operation can be expressed as a request */
 static void OpCreate(const std::string& type, const std::string& name, bool ioe, const Array::Ptr& templates, const Dictionary::Ptr& attrs,
-	bool wantHttp = false)
+	bool wantHttp = false, bool noAttrsMember = false)
 {
 	Array::Ptr t = templates ? templates : Array::Ptr(new Array());
 	Dictionary::Ptr a = attrs ? attrs : Dictionary::Ptr(new Dictionary());
 	bool viaHttp = wantHttp && HttpName(name) && JsonExpressible(t) && JsonExpressible(a);
-	Submit("create " + type + " " + NameTok(name) + " " + (ioe ? "1" : "0") + " " + EncS(t) + " " + EncS(a) + (viaHttp ? " http" : ""));
+	bool bare = viaHttp && noAttrsMember && a->GetLength() == 0;
+	Submit("create " + type + " " + NameTok(name) + " " + (ioe ? "1" : "0") + " " + EncS(t) + " " + EncS(a) + (viaHttp ? (bare ? " httpn" : " http") : ""));
 }
 
 static void OpDelete(const std::string& type, const std::string& name, bool cascade, bool wantHttp = false)
@@ -1706,6 +1723,7 @@ struct GenCtx {
 	std::vector<GKey> curDeps;                                     /* references of the create being built */
 	bool curBad = false;                                           /* the create being built is meant to fail */
 	int curApply = -1;                                             /* apply variant of the Host create being built */
+	bool lastOp = false;                                           /* the create being built is the last operation of its case */
 	std::string forceName;                                         /* next Host create: this name ... */
 	int forceApply = -1;                                           /* ... and this apply variant */
 
@@ -2016,6 +2034,20 @@ static std::string GenCreate(GenCtx& g, const std::string& type, Dictionary::Ptr
 		if (r.below(100) < 50) a->Set("host", String(r.below(3) ? std::string("127.0.0.1") : GenString(r)));
 		if (r.below(100) < 40) a->Set("port", String(r.below(3) ? std::string("5665") : GenString(r)));
 		if (r.below(100) < 25) a->Set("log_duration", (double)r.range(0, 86400));
+	} else if (type == "FileLogger") {
+		/* a type whose Start() throws when the file cannot be opened; that variant only as the last operation of a case
+		 * (what it leaves behind, F-C17i, would confuse every later operation on that name) */
+		bool badPath = g.lastOp && r.below(100) < 50;
+		a->Set("path", String(badPath ? "/nonexistent-c17/x.log" : "/dev/null"));
+		if (badPath)
+			g.curBad = true;
+		if (r.below(100) < 40) {
+			static const char *sev[] = { "critical", "warning", "information", "nosuch-severity" };
+			int k = (int)r.below(4);
+			a->Set("severity", String(sev[k]));
+			if (k == 3)
+				g.curBad = true;
+		}
 	} else if (type == "ApiUser") {
 		if (r.below(100) < 80) a->Set("password", String(r.coin() ? SimpleWord(r) : GenString(r)));
 		if (r.below(100) < 25) a->Set("client_cn", String(r.coin() ? SimpleWord(r) : GenString(r)));
@@ -2033,7 +2065,7 @@ static std::string GenCreate(GenCtx& g, const std::string& type, Dictionary::Ptr
 		}
 	}
 
-	bool hasVars = type != "Zone" && type != "Endpoint" && type != "ApiUser" && type != "Comment" && type != "Downtime" &&
+	bool hasVars = type != "FileLogger" && type != "Zone" && type != "Endpoint" && type != "ApiUser" && type != "Comment" && type != "Downtime" &&
 		type != "TimePeriod" && type != "Dependency" && type != "UserGroup" && type != "HostGroup" && type != "ServiceGroup";
 	if (type == "TimePeriod" || type == "Dependency" || type == "UserGroup" || type == "HostGroup" || type == "ServiceGroup")
 		hasVars = true; /* CustomVarObject as well */
@@ -2146,8 +2178,22 @@ static std::string GenCreate(GenCtx& g, const std::string& type, Dictionary::Ptr
 			templates->Add("tpl");
 		g.curBad = true;
 	}
-	if (type == "Endpoint" || (tp < 8 && (type == "Zone" || type == "ApiUser")))
+	if (type == "Endpoint" || (tp < 8 && (type == "Zone" || type == "ApiUser" || type == "FileLogger")))
 		g.curBad = true;
+
+	/* a composite name with a surplus '!' part: it is cut off when the name is taken apart, what remains names an object
+	 * that exists already (Service h!web!x -> host h, name web); the create has to fail and leave everything as it was */
+	bool keepName = false;
+	if (dynamic_cast<NameComposer *>(TypeOf(type).get()) && r.below(100) < 6) {
+		std::vector<std::string> prev = g.Names(type.c_str());
+		if (!prev.empty()) {
+			if (type == "Service" && !g.svcs.empty())
+				g.svcs.pop_back();
+			full = prev[r.below(prev.size())] + "!" + (r.coin() ? std::string("x") : SimpleWord(r));
+			keepName = true;
+			g.curBad = true;
+		}
+	}
 
 	/* composite names with an empty '!'-token, or whose parts do not compose to the same name again, only in the prelude */
 	if (auto *nc = dynamic_cast<NameComposer *>(TypeOf(type).get())) {
@@ -2174,7 +2220,7 @@ static std::string GenCreate(GenCtx& g, const std::string& type, Dictionary::Ptr
 					bad = true;
 			} catch (...) { }
 		}
-		if (bad) {
+		if (bad && !keepName) {
 			size_t cut = full.size() >= sn.size() && full.compare(full.size() - sn.size(), sn.size(), sn) == 0 ? full.size() - sn.size() : 0;
 			std::string prefix = full.substr(0, cut);
 			if (prefix.empty() || prefix.find("!!") != std::string::npos || prefix[0] == '!')
@@ -2198,7 +2244,7 @@ static const char *PickType(Rng& r, bool haveHost)
 	static const struct { const char *t; int w; } tab[] = {
 		{ "Host", 14 }, { "Service", 16 }, { "CheckCommand", 12 }, { "User", 5 }, { "UserGroup", 3 }, { "HostGroup", 4 },
 		{ "ServiceGroup", 3 }, { "TimePeriod", 4 }, { "Notification", 8 }, { "Dependency", 7 }, { "Comment", 7 }, { "Downtime", 7 },
-		{ "Zone", 3 }, { "Endpoint", 3 }, { "ApiUser", 3 }, { "NotificationCommand", 4 }, { "EventCommand", 3 }
+		{ "Zone", 3 }, { "Endpoint", 3 }, { "ApiUser", 3 }, { "NotificationCommand", 4 }, { "EventCommand", 3 }, { "FileLogger", 2 }
 	};
 	int total = 0;
 	for (auto& e : tab) total += e.w;
@@ -2244,9 +2290,17 @@ static void GenCase(Rng& r, long long n)
 			Dictionary::Ptr attrs;
 			Array::Ptr templates;
 			bool ioe;
+			g.lastOp = i == nops - 1;
 			std::string full = GenCreate(g, type, attrs, ioe, templates);
 			bool wantHttp = r.below(100) < 13;
-			OpCreate(type, full, ioe, templates, attrs, wantHttp);
+			bool bare = false;
+			if ((type == "UserGroup" || type == "HostGroup" || type == "ServiceGroup") && r.below(100) < 10) {
+				/* a request body without an "attrs" member (F-C17h, fixed by a049be8: killed the process) */
+				attrs = new Dictionary();
+				wantHttp = true;
+				bare = true;
+			}
+			OpCreate(type, full, ioe, templates, attrs, wantHttp, bare);
 
 			GKey k(type, full);
 			bool depsOk = true;
@@ -2375,6 +2429,9 @@ static long long Prelude()
 	OpCreate("Host", "v6", true, none, J(R"({"check_command":"nocmd"})"));
 	OpCreate("Host", "v7", false, none, J(R"({"check_command":"scc","nosuch":1})"));
 	OpCreate("Host", "v8", false, none, J(R"({"check_command":"scc","vars.a":1,"vars.b.c":"x"})"));
+	/* the two lexer keywords ConfigWriter's list lacked before 3c83e1d */
+	OpCreate("CheckCommand", "v9", false, none, J(R"({"vars":{"in":1,"debugger":{"in":[true],"debugger":"x"}},"arguments":{"in":"a","debugger":{"value":"b"}}})"));
+	OpCreate("Host", "v10", false, none, J(R"({"check_command":"scc","vars.in":true,"vars.debugger.in":2})"), true);
 
 
 	/* through the REST handlers */
@@ -2413,6 +2470,35 @@ static long long Prelude()
 	OpCase(++n);
 	OpCreate("Service", "sh!!b", false, none, J(R"({"check_command":"scc"})"));
 
+	/* names with a surplus '!' part that is cut off when the name is taken apart: what remains names an existing object */
+	OpCase(++n);
+	OpCreate("Service", "sh!pw", false, none, J(R"({"check_command":"scc"})"));
+	OpCreate("Service", "sh!pw!x", false, none, J(R"({"check_command":"scc"})"));
+	OpCreate("Service", "sh!pw", false, none, J(R"({"check_command":"scc","notes":"again"})"));
+	OpDelete("Service", "sh!pw", false);
+	OpCase(++n);
+	OpCreate("Comment", "sh!ss!pc", false, none, J(R"({"author":"me","text":"t"})"));
+	OpCreate("Comment", "sh!ss!pc!x", false, none, J(R"({"author":"me","text":"u"})"));
+	OpCreate("Notification", "sh!ss!pn", false, none, J(R"({"command":"snc","users":["su"]})"));
+	OpCreate("Notification", "sh!ss!pn!y!z", false, none, J(R"({"command":"snc","users":["su"]})"), true);
+	OpDelete("Comment", "sh!ss!pc", false, true);
+	OpDelete("Notification", "sh!ss!pn", false);
+
+	/* a type whose Start() can throw */
+	OpCase(++n);
+	OpCreate("FileLogger", "pfl", false, none, J(R"({"path":"/dev/null","severity":"critical"})"));
+	OpCreate("FileLogger", "pfl", false, none, J(R"({"path":"/dev/null"})"));
+	OpDelete("FileLogger", "pfl", false);
+	OpCase(++n);
+	OpCreate("FileLogger", "pfx", false, none, J(R"({"path":"/nonexistent-c17/x.log"})"));
+
+	/* request bodies without an "attrs" member */
+	OpCase(++n);
+	OpCreate("HostGroup", "pnb", false, none, J("{}"), true, true);
+	OpDelete("HostGroup", "pnb", false, true);
+	OpCase(++n);
+	OpCreate("Host", "pnb2", false, new Array({ "tpl" }), J("{}"), true, true);
+
 	return n;
 }
 
@@ -2427,7 +2513,7 @@ static void PrintTypes()
 			Field f = type->GetFieldInfo(i);
 			((f.Attributes & FAConfig) ? cfg : other).push_back(f.Name);
 		}
-		Emit(std::string("T ") + tn + " cfg=" + Join(cfg) + " other=" + Join(other));
+		Emit(std::string("T ") + tn + " cfg=" + Join(cfg) + " other=" + Join(other) + " plural=" + PluralOf(type));
 	}
 }
 
